@@ -16,7 +16,7 @@ pub const L_POLL: u64 = 4096;
 pub const L_AFTER: u64 = 256;
 pub const HARD: u64 = 2_000_000;
 
-pub const RULE: &str = "valid positions: the C05 mixture, the general mixture (full middlegames) and explosive shapes (rows of pawns one step from promotion on both sides, several queens, long checking sequences), depth 1..5 (or 64 as with a clock-only go), x optional earlier searches without deadline on the same engine (same or neighbouring position, depth 1..4) x expiry point k (node-count deadline through the SearchTimer hook: at node k the timer's own limit becomes zero, the engine's real deadline test decides): k log-uniform in 1..300k (thorough 3M), and ALL k in 1..T-1 for small searches. Oracle on instrumentation counters after find_best_move returns: first poll that sees the expired budget comes <= 4096 nodes after expiry; <= 256 further nodes are expanded after that observation; the search returns at all (hard cap k+2M nodes turns 'never stops' into a caught panic). Non-trivial = the deadline fell inside the search (a poll returned true before the search would have finished); distinct by (FEN, depth, k). Black-box layer (real binary, real clock): go movetime T / a clock with T left / depth 64 movetime T, T in 0..300 ms, on explosive, middlegame and game positions, optionally after an earlier search in the same process; CPU time consumed between go and bestmove <= T + 300 ms (non-trivial = the last completed iteration is below depth 64, i.e. the clock ended the search).";
+pub const RULE: &str = "valid positions: the C05 mixture, the general mixture (full middlegames) and explosive shapes (rows of pawns one step from promotion on both sides, several queens, long checking sequences), depth 1..5 (or 64 as with a clock-only go), x optional earlier searches without deadline on the same engine (same or neighbouring position, depth 1..4) x expiry point k (node-count deadline through the SearchTimer hook: at node k the timer's own limit becomes zero, the engine's real deadline test decides): k log-uniform in 1..300k (thorough 3M), and ALL k in 1..T-1 for small searches. Oracle on instrumentation counters after find_best_move returns: first poll that sees the expired budget comes <= 4096 nodes after expiry; <= 256 further nodes are expanded after that observation; the search returns at all (hard cap k+2M nodes turns 'never stops' into a caught panic). Non-trivial = the deadline fell inside the search (a poll returned true before the search would have finished); distinct by (FEN, depth, k). Black-box layer (real binary, real clock): go movetime T / a clock with T left / depth 64 movetime T, T in 0..300 ms (one case in seven 700..1500 ms), on explosive, middlegame and game positions, optionally after an earlier search in the same process; CPU time consumed between go and bestmove <= T + 300 ms (non-trivial = the last completed iteration is below depth 64, i.e. the clock ended the search).";
 
 thread_local! {
     static KMAX: Cell<u64> = Cell::new(300_000);
@@ -180,7 +180,9 @@ fn part_blackbox(bytes: &[u8], stats: &mut Stats) -> Verdict {
         return Ok(());
     }
     let fen = eng::fen(&p);
-    let t_ms = *s.pick(&[0u64, 1, 2, 5, 10, 20, 40, 80, 150, 300]);
+    // mostly short budgets; one case in seven a long one (a deadline that MOVES — extended in
+    // proportion to the budget — only shows when the budget is large against the allowance)
+    let t_ms = if s.chance(15) { *s.pick(&[700u64, 1000, 1500]) } else { *s.pick(&[0u64, 1, 2, 5, 10, 20, 40, 80, 150, 300]) };
     let white = p.stm == refchess::Color::W;
     let go = match s.below(4) {
         0 | 1 => format!("go movetime {}", t_ms),
